@@ -43,6 +43,7 @@ type Report struct {
 	Explanation string
 	Assumptions []string
 	Analysed    map[string]interface{}
+	finalized   bool
 }
 
 // ControlResult records one positive control (a derived variant that must be reported).
@@ -101,6 +102,17 @@ func LoadKnown(path string) ([]KnownFinding, error) {
 // Finish evaluates instance minimums, applies known findings, writes evidence and replay files,
 // prints VIOLATION / KNOWN-FINDING lines and returns the exit code.
 func (r *Report) Finish(p *Prog, verifDir string, start time.Time, seed int64) int {
+	r.Finalize(p)
+	return r.finish(p, verifDir, start, seed)
+}
+
+// Finalize turns unmet instance minimums, unresolved anchors and controls that did not fire into
+// undecided obligations (idempotent).
+func (r *Report) Finalize(p *Prog) {
+	if r.finalized {
+		return
+	}
+	r.finalized = true
 	// minimum instance counts
 	count := map[string]int{}
 	for _, o := range r.Obligations {
@@ -128,6 +140,9 @@ func (r *Report) Finish(p *Prog, verifDir string, start time.Time, seed int64) i
 				Need: "the derived variant is reported with key prefix " + c.Expect, Have: "reported: " + strings.Join(c.Reported, " | "), Status: Undecided})
 		}
 	}
+}
+
+func (r *Report) finish(p *Prog, verifDir string, start time.Time, seed int64) int {
 	known, kerr := LoadKnown(filepath.Join(verifDir, "known_findings.json"))
 	if kerr != nil && !os.IsNotExist(kerr) {
 		r.Obligations = append(r.Obligations, &Obligation{Rule: r.Property + "/known", Key: r.Property + "/known:file", Construct: "known_findings.json", Need: "readable", Have: kerr.Error(), Status: Undecided})
